@@ -88,6 +88,29 @@ def do_call(pp, w, handles, recipe, call):
             recipe.dilute(_obj(w, handles, call[1]), w['nacl'], DILUTE_C[call[2]], w['water'])
         elif op == 'transfer':
             recipe.transfer(_obj(w, handles, call[1], call[2]), _obj(w, handles, call[3], call[4]), '10 uL')
+        elif op == 'bad':
+            # arguments the recipe rejects at call time; the source / object is the big stock A (declared or not)
+            k, A, nacl, water = call[1], _obj(w, handles, 'A'), w['nacl'], w['water']
+            if k == 'csf-unreachable':
+                recipe.create_solution_from(A, nacl, '40 M', water, '1 mL', name='F')
+            elif k == 'csf-zero':
+                recipe.create_solution_from(A, nacl, '0 M', water, '1 mL', name='F')
+            elif k == 'csf-unit':
+                recipe.create_solution_from(A, nacl, '1 xM', water, '1 mL', name='F')
+            elif k == 'csf-quantity':
+                recipe.create_solution_from(A, nacl, '0.0005 M', water, '1 xL', name='F')
+            elif k == 'cs-three':
+                recipe.create_solution(nacl, water, name='S', concentration='0.5 M', quantity='10 mg', total_quantity='2 mL')
+            elif k == 'cs-one':
+                recipe.create_solution(nacl, water, name='S', concentration='0.5 M')
+            elif k == 'cc-unit':
+                recipe.create_container('X', '5 xL')
+            elif k == 'cc-negative':
+                recipe.create_container('X', '-5 mL')
+            elif k == 'dilute-unit':
+                recipe.dilute(A, nacl, '1 xM', water)
+            else:
+                raise env.InternalError(f"unknown bad call {k}")
         elif op == 'start_stage':
             recipe.start_stage(call[1])
         elif op == 'end_stage':
@@ -223,7 +246,10 @@ def full_digest(pp, w, recipe):
              tuple(sorted((k, repr(v)) for k, v in vars(recipe).items()
                           if k not in ('results', 'steps', 'stages', 'used')
                           and not (k == 'current_stage_start' and recipe.current_stage == 'all'))),
-             tuple(sorted((k, _objdig(v)) for k, v in recipe.results.items()))]
+             tuple(sorted((k, _objdig(v)) for k, v in recipe.results.items())),
+             # the step records (what tracking reads): a refused call, a refused bake included, must not touch them
+             tuple((len(s.frm), len(s.to), tuple(sorted((x.name, round(a, 6)) for x, a in s.trash.items())),
+                    tuple(sorted(map(str, s.objects_used))), s.instructions) for s in recipe.steps)]
     if recipe.locked:
         parts.append(_tracking(pp, w, recipe))
     return hashlib.blake2b(repr(parts).encode(), digest_size=16).hexdigest()
@@ -268,6 +294,11 @@ def variants(action, args, nsteps):
         return [('start_stage', 'all')]
     if action == 'EndStage':
         return [('end_stage', args[0])]
+    if action == 'BadArgs':
+        if args[0] == 'create':
+            return [('bad', k) for k in ('csf-unreachable', 'csf-zero', 'csf-unit', 'csf-quantity', 'cs-three', 'cs-one',
+                                         'cc-unit', 'cc-negative')]
+        return [('bad', 'dilute-unit')]
     if action == 'Bake':
         return [('bake',)]
     raise env.InternalError(f"no concretisation for {action}{args}")
@@ -324,8 +355,6 @@ def check_edge(pp, path, call, mstate, mtarget, live=None):
                     case, expected, observed))
         return vs, None, False
     if refused:
-        if mtarget['phase'] == 'bake_failed':
-            return vs, None, False
         after = full_digest(pp, w, recipe)
         if after != before:
             kind = 'changed-after-bake' if mstate['phase'] == 'locked' else 'refused-call-changed-state'
@@ -428,7 +457,8 @@ def run(col):
     col.assumptions += [
         "bounds: objects/stage names/MaxSteps as in models/*.cfg; a step-adding call beyond MaxSteps is not explored",
         "concrete arguments are chosen so that every order of accepted steps is physically feasible (DESIGN C16)",
-        "bake_failed (a declared object unused) is terminal: the property does not say what a half-baked recipe does",
+        "a refused bake (a declared object unused) is a refused call like any other: it must leave the recipe unchanged, "
+        "so that the recipe can be completed and baked later",
     ]
     for cfg in cfgs:
         _run_cfg(col, pp, cfg)
@@ -477,8 +507,6 @@ def _run_cfg(col, pp, cfg):
                 transitions += 1
                 src, action, args, dst = edges[ei]
                 if fp is None:
-                    if not viols and states[dst]['phase'] == 'bake_failed':
-                        covered.add((core_of[src], action, args))
                     continue
                 covered.add((core_of[src], action, args))
                 key = (core_of[dst], fp)
